@@ -1,6 +1,7 @@
 pub mod c12;
 pub mod c16;
 pub mod chain;
+pub mod c19;
 
 #[derive(Clone, Debug)]
 pub struct RunCfg {
